@@ -97,7 +97,23 @@ fn mutate(schema: &str, doc: &mut Value, m: &Value, variant: usize) {
             let (last, parents) = segs.split_last().unwrap();
             let t = table_at(doc, parents);
             let cur = t.get(*last).unwrap().clone();
-            let new = if cur.get("s").is_some() { json!({"i": 42}) } else if cur.get("b").is_some() { json!({"s": "true"}) } else { json!({"s": "a single string instead of an array"}) };
+            // (which wrong kind rotates with the variation index)
+            let new = if cur.get("s").is_some() {
+                [json!({"i": 42}), json!({"d": "2024-01-01"}), json!({"b": true}), json!({"d": "1979-05-27T07:32:00Z"}), json!({"f": format!("{}", 1.5f64.to_bits())}), json!({"a": [cur.clone()]})][variant % 6].clone()
+            } else if cur.get("b").is_some() {
+                [json!({"s": "true"}), json!({"i": 1}), json!({"s": "false"}), json!({"i": 0})][variant % 4].clone()
+            } else {
+                // an array of strings: a single string instead, or one element of another kind among / instead of the strings
+                let mut elems = cur["a"].as_array().unwrap().clone();
+                match variant % 6 {
+                    0 => json!({"s": "a single string instead of an array"}),
+                    1 => json!({"a": [{"i": 42}]}),
+                    2 => { elems.push(json!({"b": true})); json!({"a": elems}) }
+                    3 => { elems.insert(0, json!({"d": "2024-01-01"})); json!({"a": elems}) }
+                    4 => { elems.push(json!({"a": []})); json!({"a": elems}) }
+                    _ => { elems.push(json!({"t": {}})); json!({"a": elems}) }
+                }
+            };
             t.insert(last.to_string(), new);
         }
         "retype-as-table" => {
@@ -169,12 +185,24 @@ fn expected_flat(schema: &str, paths: &[String], free: &Value) -> BTreeMap<Strin
     m
 }
 
+thread_local! { static VIA_FILE: std::cell::Cell<bool> = const { std::cell::Cell::new(false) }; }
+/// `toml::from_str`, or (every other variation) the way libcnb itself reads documents: `read_toml_file`
+fn parse<T: serde::de::DeserializeOwned>(text: &str) -> Result<T, String> {
+    if VIA_FILE.with(std::cell::Cell::get) {
+        let f = tempfile::NamedTempFile::new_in("/dev/shm").map_err(|e| format!("HARNESS: {e}"))?;
+        std::fs::write(f.path(), text).map_err(|e| format!("HARNESS: {e}"))?;
+        libcnb_common::toml_file::read_toml_file::<T>(f.path()).map_err(|e| e.to_string())
+    } else {
+        toml::from_str::<T>(text).map_err(|e| e.to_string())
+    }
+}
+
 fn parse_and_project(schema: &str, text: &str) -> Result<BTreeMap<String, Value>, String> {
     let mut m = BTreeMap::new();
     let free = |t: &Option<toml::Table>| t.as_ref().map(table_to_tagged);
     match schema {
         "component" => {
-            let d: ComponentBuildpackDescriptor = toml::from_str(text).map_err(|e| e.to_string())?;
+            let d: ComponentBuildpackDescriptor = parse(text)?;
             m.insert("api".into(), json!({"s": d.api.to_string()}));
             project_buildpack(&d.buildpack, &mut m);
             if let Some(t) = d.targets.first() {
@@ -196,7 +224,7 @@ fn parse_and_project(schema: &str, text: &str) -> Result<BTreeMap<String, Value>
             if let Some(f) = free(&d.metadata) { m.insert("metadata".into(), f); }
         }
         "composite" => {
-            let d: CompositeBuildpackDescriptor = toml::from_str(text).map_err(|e| e.to_string())?;
+            let d: CompositeBuildpackDescriptor = parse(text)?;
             m.insert("api".into(), json!({"s": d.api.to_string()}));
             project_buildpack(&d.buildpack, &mut m);
             m.insert("order[]".into(), json!(d.order.len()));
@@ -211,7 +239,7 @@ fn parse_and_project(schema: &str, text: &str) -> Result<BTreeMap<String, Value>
             if let Some(f) = free(&d.metadata) { m.insert("metadata".into(), f); }
         }
         "plan" => {
-            let d: BuildpackPlan = toml::from_str(text).map_err(|e| e.to_string())?;
+            let d: BuildpackPlan = parse(text)?;
             if let Some(e) = d.entries.first() {
                 m.insert("entries[]".into(), json!(d.entries.len()));
                 m.insert("entries[].name".into(), json!({"s": e.name}));
@@ -219,7 +247,7 @@ fn parse_and_project(schema: &str, text: &str) -> Result<BTreeMap<String, Value>
             }
         }
         "layer" => {
-            let d: LayerContentMetadata = toml::from_str(text).map_err(|e| e.to_string())?;
+            let d: LayerContentMetadata = parse(text)?;
             if let Some(t) = d.types {
                 if t.launch { m.insert("types.launch".into(), json!({"b": true})); }
                 if t.build { m.insert("types.build".into(), json!({"b": true})); }
@@ -228,7 +256,7 @@ fn parse_and_project(schema: &str, text: &str) -> Result<BTreeMap<String, Value>
             if let Some(f) = free(&d.metadata) { m.insert("metadata".into(), f); }
         }
         "launch" => {
-            let d: Launch = toml::from_str(text).map_err(|e| e.to_string())?;
+            let d: Launch = parse(text)?;
             if let Some(l) = d.labels.first() { m.insert("labels[]".into(), json!(d.labels.len())); m.insert("labels[].key".into(), json!({"s": l.key})); m.insert("labels[].value".into(), json!({"s": l.value})); }
             if let Some(p) = d.processes.first() {
                 m.insert("processes[]".into(), json!(d.processes.len()));
@@ -241,11 +269,11 @@ fn parse_and_project(schema: &str, text: &str) -> Result<BTreeMap<String, Value>
             if let Some(s) = d.slices.first() { m.insert("slices[]".into(), json!(d.slices.len())); m.insert("slices[].paths".into(), json!({"a": s.path_globs.iter().map(|k| json!({"s": k})).collect::<Vec<_>>()})); }
         }
         "store" => {
-            let d: Store = toml::from_str(text).map_err(|e| e.to_string())?;
+            let d: Store = parse(text)?;
             if !d.metadata.is_empty() { m.insert("metadata".into(), table_to_tagged(&d.metadata)); }
         }
         "package" => {
-            let d: PackageDescriptor = toml::from_str(text).map_err(|e| e.to_string())?;
+            let d: PackageDescriptor = parse(text)?;
             m.insert("buildpack.uri".into(), json!({"s": d.buildpack.uri.to_string()}));
             if let Some(x) = d.dependencies.first() { m.insert("dependencies[]".into(), json!(d.dependencies.len())); m.insert("dependencies[].uri".into(), json!({"s": x.uri.to_string()})); }
             m.insert("platform.os".into(), json!({"s": format!("{:?}", d.platform.os).to_lowercase()}));
@@ -256,6 +284,7 @@ fn parse_and_project(schema: &str, text: &str) -> Result<BTreeMap<String, Value>
 }
 
 fn run(v: &Value, idx: usize, variant: usize) -> Vec<String> {
+    VIA_FILE.with(|c| c.set((variant + idx) % 2 == 1));
     let schema = v["schema"].as_str().unwrap();
     let paths: Vec<String> = serde_json::from_value(v["doc"].clone()).unwrap();
     let mut r = fastrand::Rng::with_seed(seed().wrapping_add(idx as u64));
@@ -319,7 +348,7 @@ fn run(v: &Value, idx: usize, variant: usize) -> Vec<String> {
     // component / composite classification through the untagged enum
     let class = v["class"].as_str().unwrap();
     if class != "-" {
-        let c = toml::from_str::<BuildpackDescriptor>(&text);
+        let c = parse::<BuildpackDescriptor>(&text);
         let got = match &c { Ok(BuildpackDescriptor::Component(_)) => "component", Ok(BuildpackDescriptor::Composite(_)) => "composite", Err(_) => "reject" };
         if got != class {
             p.push(format!("{schema}: as a buildpack descriptor the document ({}) is classified {got}, the specification says {class}", v["mut"]));
